@@ -1,6 +1,7 @@
 package checks
 
 import (
+	"crypto/sha256"
 	"encoding/hex"
 	"fmt"
 	"os"
@@ -8,6 +9,10 @@ import (
 	"strings"
 	"sync"
 	"time"
+
+	"github.com/pokt-network/pocket-core/store/iavl"
+	"github.com/pokt-network/pocket-core/store/rootmulti/heightcache"
+	dbm "github.com/tendermint/tm-db"
 
 	"verif/internal/ev"
 )
@@ -89,10 +94,56 @@ func c12Env() EnvCfg {
 	return env
 }
 
+// c12FlushVector: the write path of one block, below the application: a block's changes sit in a cache-wrap of the
+// IAVL store and reach the tree in ONE flush at commit. For trees of 13 and 24 keys, every pair (and for 13 keys every
+// triple) of removals plus an update and an insert is flushed into a fresh copy of the tree; the vector of resulting
+// root hashes is a pure function of the history and must be the same in every process.
+func c12FlushVector() string {
+	h := sha256.New()
+	run := func(n int, dels []int) {
+		tree, _ := iavl.NewMutableTree(dbm.NewMemDB(), 100)
+		st := iavl.UnsafeNewStore(tree, 0, 1, heightcache.InvalidCache{})
+		type wr interface {
+			Set(k, v []byte) error
+			Delete(k []byte) error
+			Write()
+		}
+		b := st.CacheWrap().(wr)
+		for i := 0; i < n; i++ {
+			_ = b.Set([]byte(fmt.Sprintf("k%02d", i)), []byte("v"))
+		}
+		b.Write()
+		st.Commit()
+		b = st.CacheWrap().(wr)
+		for _, d := range dels {
+			_ = b.Delete([]byte(fmt.Sprintf("k%02d", d)))
+		}
+		_ = b.Set([]byte("k00"), []byte("w"))
+		_ = b.Set([]byte("k07x"), []byte("new"))
+		b.Write()
+		fmt.Fprintf(h, "%d%v:%X;", n, dels, st.Commit().Hash)
+	}
+	for _, n := range []int{13, 24} {
+		for a := 1; a < n; a++ {
+			for b := a + 1; b < n; b++ {
+				run(n, []int{a, b})
+				run(n, []int{b, a})
+				if n == 13 {
+					for d := b + 1; d < n; d++ {
+						run(n, []int{a, b, d})
+					}
+				}
+			}
+		}
+	}
+	return hex.EncodeToString(h.Sum(nil))
+}
+
 func init() {
+	chainInvariants["c12:flushvector"] = func(r *replica, res *JobResult) { res.Obs["flushvector"] = c12FlushVector() }
 	register(&Check{ID: "C12", QuickBud: 170 * time.Second, ThorBud: 40 * time.Minute,
 		Run: func(c *ev.Ctx) {
-			c.Rule = "Explicit-state BFS over real ABCI blocks (menu: fee-paying sends under either proposer, proposer with three reward delegators that have no accounts yet, missed blocks/jailing, time jumps, unjail, claims and proofs paying those delegators, edit-stake); EVERY explored history is re-executed in freshly started worker processes of every variant - the unmodified binary again, binaries whose Go runtime takes each map's hash seed and each iteration start from VERIF_MAPROT=k (deterministic, enumerated k), and a binary whose time.Now() is 2009 (before every block time; the real clock is after them) - and the per-transaction codes and data, validator updates and app hash of every block must be identical to the base execution"
+			c.Rule = "Explicit-state BFS over real ABCI blocks (menu: fee-paying sends under either proposer, proposer with three reward delegators that have no accounts yet, missed blocks/jailing, time jumps, unjail, claims and proofs paying those delegators, edit-stake); EVERY explored history is re-executed in freshly started worker processes of every variant - the unmodified binary again, binaries whose Go runtime takes each map's hash seed and each iteration start from VERIF_MAPROT=k (deterministic, enumerated k), and a binary whose time.Now() is 2009 (before every block time; the real clock is after them) - and the per-transaction codes and data, validator updates and app hash of every block must be identical to the base execution; plus long one-shot histories and 24 exit histories (nodes and applications leaving, many removals per store in one flush, from 6 preceding tree shapes) on every variant; plus the store-level write path: every pair / triple of removals with an update and an insert flushed through the cache-wrap of an IAVL store of 13 / 24 keys, root hashes compared between all worker processes"
 			c.Assume("map order is controlled through a build overlay of runtime/map.go (hash seed and iteration start from the environment); the wall clock through Go's faketime build tag; goroutine scheduling inside block execution is not varied (block execution is single-threaded in this application)")
 			vs, err := c12Variants(c.Tier)
 			if err != nil {
@@ -201,6 +252,74 @@ func init() {
 					}
 				}
 				c.Outcome("long-history-codes:" + strings.Join(codes, ","))
+			}
+			// exit histories: blocks whose single flush removes MANY keys of one store (a node and an application leaving
+			// the network: record, set and index entries, signing info, queue entries; jailing; proofs removing claims).
+			// The order in which a flush hands removals to the tree is the classic place for map order to leak into
+			// the tree shape, so these run on every variant from several preceding tree shapes.
+			stakeN3 := tx("node_stake", "N3", "node", "N3", "value", "1500000", "output", "N3", "chains", "0001+0002")
+			stakeP2 := tx("app_stake", "P2", "value", "1000000", "chains", "0001+0002")
+			exitAll := blk(tx("node_unstake", "N2"), tx("app_unstake", "P1"), tx("node_unstake", "N3"), tx("app_unstake", "P2"))
+			pres := [][]BlockSpec{
+				{},
+				{blk(stakeN3)},
+				{blk(stakeN3, stakeP2)},
+				{blk(stakeN3, stakeP2), blk(tx("send", "A1", "to", "F7", "amount", "5"), tx("send", "A2", "to", "F8", "amount", "5"))},
+				{blk(stakeP2), {Absent: []string{"N1"}}},
+				{blk(stakeN3, stakeP2), blk(tx("claim", "N2", "session", "cur-1")), blk(tx("claim", "N1", "session", "cur-1"))},
+			}
+			exits := [][]BlockSpec{
+				{exitAll, {}, {}, {}},
+				{blk(tx("node_unstake", "N2"), tx("app_unstake", "P1")), {Absent: []string{"N1"}}, {}, {}},
+				{blk(tx("node_unstake", "N1"), tx("node_unstake", "N2")), {TimeJump: 2}, {}, {}},
+				{blk(tx("app_unstake", "P1"), tx("app_unstake", "P2")), blk(tx("node_unstake", "N3")), {}, {}, {}},
+			}
+			for pi, pre := range pres {
+				for ei, ex := range exits {
+					bl := append(append([]BlockSpec{}, pre...), ex...)
+					job := Job{Env: env, Blocks: bl, Args: map[string]string{"return_raw": "1"}}
+					res := getPool().Exec(job)
+					if res.Err != "" {
+						c.HarnessError(res.Err)
+						continue
+					}
+					cfg.OnResult(c, nil, job, res)
+					nodes, apps := 0, 0
+					for _, b := range res.Blocks {
+						for ti, t := range b.Txs {
+							if t.Code == 0 && ti < len(bl[b.Height-env.BaseHeight-int64(env.Warmup)-1].Txs) {
+								switch bl[b.Height-env.BaseHeight-int64(env.Warmup)-1].Txs[ti].Kind {
+								case "node_unstake":
+									nodes++
+								case "app_unstake":
+									apps++
+								}
+							}
+						}
+					}
+					c.Outcome(fmt.Sprintf("exit-history:pre%d/exit%d:%d-nodes-%d-apps-leaving", pi, ei, nodes, apps))
+				}
+			}
+			// store-level write path (see c12FlushVector): evaluated in the base worker and in every variant process
+			{
+				job := Job{Env: env, Blocks: []BlockSpec{{}}, Want: []string{"c12:flushvector"}}
+				base := getPool().Exec(job)
+				if base.Err != "" || base.Obs["flushvector"] == nil {
+					c.HarnessError("flush vector: " + base.Err)
+				}
+				for _, v := range vs {
+					r2 := v.pool.Exec(job)
+					cmpN++
+					if r2.Err != "" {
+						c.HarnessError(fmt.Sprintf("variant %s: %s", v.Name, r2.Err))
+						continue
+					}
+					if fmt.Sprint(r2.Obs["flushvector"]) != fmt.Sprint(base.Obs["flushvector"]) {
+						c.Report("nondeterminism/"+v.Class+"/store-flush", fmt.Sprintf("flushing the same block changes (pairs and triples of removals plus an update and an insert, through the cache-wrap of an IAVL store of 13 / 24 keys) gives other root hashes in the %s worker than in the base worker (digest of all root hashes %v vs %v)", v.Name, r2.Obs["flushvector"], base.Obs["flushvector"]),
+							chainReplay{Spec: "determinism:" + v.Name, Env: job.Env, Blocks: job.Blocks, Want: job.Want})
+					}
+				}
+				c.OutcomeN("store-flush-histories", int64(2*(12*11/2+23*22/2)+12*11*10/6))
 			}
 			c.AddEvals(cmpN)
 			c.Extra["variant_executions"] = cmpN
